@@ -82,6 +82,12 @@ theorem powAux_eq {M : Type*} [CommMonoid M] (r b : M) (e fuel : ℕ) (h : e < 2
 theorem pow_binary {M : Type*} [CommMonoid M] (b : M) (e : ℕ) (h : e < 2 ^ 64) : powAux 1 b e 64 = b ^ e := by
   simpa using powAux_eq 1 b e 64 h
 
+/-- C10: one extended-Euclid step in field terms preserves the Bezout invariants  t*a = r  and  newt*a = newr. -/
+theorem euclid_step (a t r newt newr q : R) (h1 : t * a = r) (h2 : newt * a = newr) :
+    newt * a = newr ∧ (t - q * newt) * a = r - q * newr := by
+  refine ⟨h2, ?_⟩
+  rw [sub_mul, mul_assoc, h1, h2]
+
 /-- C13/C14/C06: association orders used by the kernels are the plain sum. -/
 theorem sumtree3 (x y z : R) : (x + y) + z = x + y + z := by ring
 theorem sumtree4 (x y z w : R) : (x + y) + (z + w) = x + y + z + w := by ring
